@@ -32,6 +32,9 @@ def overlay(sc):
         if not now.startswith(orig):
             raise ToolError("overlay altered existing text of " + rel)
         done.append((rel, len(add)))
+        if not hasattr(sc, "overlay_lines"):
+            sc.overlay_lines = {}
+        sc.overlay_lines[rel] = orig.count(b"\n") + 1
     # the crate forbids unsafe; harnesses use none. Cargo.lock is part of the tree.
     return done
 
@@ -136,12 +139,22 @@ def _playback_tests(sc, name, stubbing, timeout, cwd, tdir):
     cmd = ["cargo", "kani", "--exact", "--harness", name, "--output-format=terse", "-Z", "concrete-playback", "--concrete-playback=print"]
     if stubbing:
         cmd += ["-Z", "stubbing"]
+    import signal
+    env = _env(sc)
+    env["CARGO_TARGET_DIR"] = os.path.join(CACHE, tdir)
+    proc = subprocess.Popen(cmd, cwd=cwd or sc.repo, env=env, stdout=subprocess.PIPE, stderr=subprocess.STDOUT, text=True, start_new_session=True)
     try:
-        env = _env(sc)
-        env["CARGO_TARGET_DIR"] = os.path.join(CACHE, tdir)
-        p = subprocess.run(cmd, cwd=cwd or sc.repo, env=env, stdout=subprocess.PIPE, stderr=subprocess.STDOUT, text=True, timeout=timeout)
+        stdout, _ = proc.communicate(timeout=timeout)
     except subprocess.TimeoutExpired:
+        # kill the whole group: cbmc is a grandchild and would otherwise keep running
+        try:
+            os.killpg(proc.pid, signal.SIGKILL)
+        except Exception:
+            pass
+        proc.communicate()
         return []
+    class _P: pass
+    p = _P(); p.stdout = stdout
     tests = []      # (kind, message, vals)
     kind = msg = None
     vals = None
@@ -161,7 +174,7 @@ def _playback_tests(sc, name, stubbing, timeout, cwd, tdir):
     return tests
 
 
-def playback(sc, name, stubbing, timeout=900, cwd=None, tdir="target-kani", has_cex=False):
+def playback(sc, name, stubbing, timeout=420, cwd=None, tdir="target-kani", has_cex=False):
     """concrete values (one list per kani::any() call, in call order) that make the harness fail, or None"""
     for k, m, v in _playback_tests(sc, name, stubbing, timeout, cwd, tdir):
         if k != "cover":
@@ -186,7 +199,7 @@ def native_replay(sc, test, input_hex, log):
     lines = [l[l.index("REPLAY"):] for l in out.split("\n") if "REPLAY" in l]
     return {"cmd": "VERIF_REPLAY_INPUT=%s RUSTFLAGS='--cfg gtker_wow_srp_verif' %s" % (input_hex, " ".join(cmd)),
             "exit": p.returncode, "lines": lines, "reproduced": any("REPLAY-FAIL" in l for l in lines) or ("panicked" in out and p.returncode != 0),
-            "tail": out[-1500:]}
+            "tail": out[-1500:], "panics": "\n".join(l for l in out.split("\n") if "panicked at" in l)[:2000]}
 
 
 def run_harnesses(res, cfg, sc, tier, overlay_done=False):
@@ -211,7 +224,7 @@ def run_harnesses(res, cfg, sc, tier, overlay_done=False):
     for h in want:
         t = h.get("tier", "quick")
         cov = set(h.get("covers", []))
-        if t in ("fallback", "changed") and tier != "thorough" and cov and (cov & (demoted | getattr(res, "changed_fns", set()))) and (cov & (demoted | getattr(res, "changed_fns", set()))) <= refuted:
+        if t in ("fallback", "changed", "thorough") and tier != "thorough" and cov and (cov & (demoted | getattr(res, "changed_fns", set()))) and (cov & (demoted | getattr(res, "changed_fns", set()))) <= refuted:
             res.assumptions.append("Kani harness %s skipped: the changed function(s) it covers are already refuted by a native search on this run" % h["name"])
             continue
         keep.append(h)
@@ -266,6 +279,12 @@ def run_harnesses(res, cfg, sc, tier, overlay_done=False):
             o["status"] = "failed"
             o["verifier_output"] = r["text"]
             donor = have_cex.get(h.get("function", h["name"]))
+            if donor is not None and donor.get("found_input") is False and donor.get("no_playback"):
+                # playback for this function was already attempted on this run and gave nothing (timeout): do not pay for it again
+                o["replay"] = {"harness": h["name"], "test": h.get("replay_test"), "concrete_values": None, "found_input": False,
+                               "note": "playback not attempted: an earlier playback for the same function on this run produced no values"}
+                res.obligations.append(o)
+                continue
             if donor is not None:
                 # a counterexample for the same function under contract was already extracted on this run: do not pay for another playback
                 rp = dict(donor); rp["borrowed_from"] = donor.get("harness"); rp["harness"] = h["name"]
@@ -288,6 +307,8 @@ def run_harnesses(res, cfg, sc, tier, overlay_done=False):
             o["replay"] = rp
             if rp.get("found_input"):
                 have_cex[h.get("function", h["name"])] = rp
+            elif vals is None:
+                have_cex.setdefault(h.get("function", h["name"]), {"found_input": False, "no_playback": True})
         else:
             o["status"] = "undecided"
             res.undecided.append("Kani harness %s: %s" % (h["name"], st))
@@ -298,6 +319,21 @@ def run_harnesses(res, cfg, sc, tier, overlay_done=False):
     res.functions.setdefault("kani", [])
     res.functions["kani"] += sorted(set(h.get("function", "") for h in want))
     return True
+
+
+def _panic_in_real_code(sc, out):
+    """location 'src/x.rs:LINE' of a panic raised in the crate's own text (not in the appended overlay, not in a dependency), or None"""
+    for m in re.finditer(r"panicked at (src/[^:\s]+):(\d+):\d+", out):
+        rel, line = m.group(1), int(m.group(2))
+        n = getattr(sc, "overlay_lines", {}).get(rel)
+        if n is None:
+            # a file without overlay: all of it is the crate's own text
+            if os.path.exists(os.path.join(sc.repo, rel)):
+                return "%s:%d" % (rel, line)
+            continue
+        if line <= n:
+            return "%s:%d" % (rel, line)
+    return None
 
 
 def run_searches(res, cfg, sc, tier, overlay_done):
@@ -337,6 +373,12 @@ def run_searches(res, cfg, sc, tier, overlay_done):
         elif stats:
             o["status"] = "discharged" if h.get("exhaustive") else "bounded"
             o["stats"] = stats[0]
+        elif _panic_in_real_code(sc, nr.get("panics", "")):
+            # the code under test panicked on an input of the search (all inputs are inside the functions' documented domains)
+            loc = _panic_in_real_code(sc, nr.get("panics", ""))
+            o["status"] = "failed"
+            o["verifier_output"] = "the crate's own code panicked during the search at %s\n%s" % (loc, nr["tail"][-1200:])
+            o["replay"] = {"kind": "native", "test": h["test"], "input_hex": "", "found_input": True, "lines": ["REPLAY-FAIL %s panic at %s" % (h["name"], loc)], "cmd": nr["cmd"]}
         else:
             o["status"] = "undecided"
             res.undecided.append("native search %s did not run to completion: %s" % (h["name"], nr["tail"][-300:]))
